@@ -332,6 +332,7 @@ impl Scenario for DynSum {
                 }
                 let a = acts[choose(acts.len())].clone();
                 op_log(format!("{a:?}"));
+                let is_stab = matches!(a, A::Stabilise);
                 match a {
                     A::Plan(c, m) => {
                         w.sh.plan.borrow_mut()[c] = m;
@@ -440,6 +441,7 @@ impl Scenario for DynSum {
                         }
                     }
                 }
+                crate::world::audit_state(&w.state, is_stab);
             }
         });
         let ww = ManuallyDrop::into_inner(w);
